@@ -338,6 +338,9 @@ def minimise(pool, prop: str, unit: dict, rec: dict, cls: str,
                     break
                 if not valid_f(cand):
                     continue
+                if prop != "C07" and gen_defs.excluded_by(cand):
+                    continue  # never shrink into a class the pinned tree
+                    #           itself fails on (R1-R3)
                 u = copy.deepcopy(best_u)
                 u["ast"] = cand
                 u["wid"] = "ast"
@@ -374,6 +377,8 @@ def minimise_c03(pool, wit, budget: int = 50):
             if spent >= budget:
                 break
             if strict_f and not valid_f(cand):
+                continue
+            if gen_defs.excluded_by(cand):
                 continue
             pair = []
             for b in best:
